@@ -311,6 +311,15 @@ def cmid_reader_rule(repo: Repo, rep, P: str, rule: str):
         def rleaf(e):
             if isinstance(e, ast.Call) and norm(e.func) == "len" and len(e.args) == 1 and norm(e.args[0]) == data[0]:
                 return L
+            if isinstance(e, ast.Name) and e.id in fconsts:
+                return alg.Poly.const(fconsts[e.id])
+            if isinstance(e, (ast.Name, ast.Attribute)):
+                try:
+                    c = repo.fold(e, ci=mod)
+                    if isinstance(c, int) and not isinstance(c, bool):
+                        return alg.Poly.const(c)
+                except Exception:
+                    pass
             return None
         try:
             r0 = alg.to_poly(r[0], rleaf) if len(r) > 1 else alg.Poly.const(0)
